@@ -2,6 +2,7 @@ import Lean.Data.Json
 import Verif.Model.Await
 import Verif.Model.Token
 import Verif.Model.ClientApi
+import Verif.Model.AwaitSlow
 import Verif.Gen.Errors
 open Lean
 -- DRIVER: await
@@ -199,6 +200,8 @@ def handle (j : Json) : Except String Json := do
         | some "blocked" => .blocked
         | some "stalled" => .stalledUntil ((j.getObjValAs? Nat "stallUntil").toOption.getD 0)
         | _ => .open }
-    return outJson (run Verif.Gen.Errors.isRetryableError cfg ev)
+    match (j.getObjValAs? Nat "cbDur").toOption with
+    | some d => return outJson (Verif.Model.AwaitSlow.runD Verif.Gen.Errors.isRetryableError cfg (fun _ => d) ev)
+    | none => return outJson (run Verif.Gen.Errors.isRetryableError cfg ev)
   else throw "P must be positive"
 end Verif.Drv.Await
